@@ -681,7 +681,104 @@ func (e *env) bbUpstream(d caseDesc, form string) {
 			e.rec.Seen("bb_outcomes", in.Pos+":"+form+":"+in.Class+":emitted")
 			e.rec.Seen("observed_transports_bb", in.Pos+":"+o.String())
 			e.rec.Stat("bb_probed_endpoints", 1)
-			e.judgeTransport(d, form, nat, a, o, &startObs{Input: a, Natural: nat, Observed: &o, Flight: fl, Note: strings.Join(argv, " ")}, true)
+			good := e.judgeTransportPhase(d, form, nat, a, o, &startObs{Input: a, Natural: nat, Observed: &o, Flight: fl, Note: strings.Join(argv, " ")}, true, "")
+			// The client lives on after a failed upstream session and opens the carrier again for the next local
+			// connection, on the same upstream object: every use has to select the transport the address names.
+			// (Stream carriers only: one accepted connection at the recorder = one attempt of the client.)
+			if !good || nat == nil || (nat.Kind != "socket" && nat.Kind != "ws") || fl.Net == "stdio" {
+				return
+			}
+			for use := 2; use <= 1+e.rec.Pick(1, 2); use++ {
+				select {
+				case <-gaveUp: // the refused session made the client drop the local connection
+				case <-c.done:
+					e.judgeExit(d, form, c, bo, true)
+					return
+				case <-time.After(watchdog):
+					e.rec.Inconclusive("watchdog: client kept the local connection after its upstream session was refused", d)
+					return
+				}
+				for drained := false; !drained; {
+					select {
+					case <-rs.rec.C:
+					default:
+						drained = true
+					}
+				}
+				lc2, err := net.DialTimeout("tcp", fmt.Sprintf("127.0.0.1:%d", lport), ioWait)
+				if err != nil {
+					if dead, known := childDied(c, lport); known && dead {
+						e.judgeExit(d, form, c, bo, true)
+					} else {
+						e.rec.Inconclusive("local listener not connectable a second time: "+err.Error(), d)
+					}
+					return
+				}
+				defer lc2.Close()
+				lc2.Write([]byte("ping"))
+				gaveUp = make(chan struct{})
+				go func(lc net.Conn, ch chan struct{}) {
+					buf := make([]byte, 256)
+					for {
+						if _, err := lc.Read(buf); err != nil {
+							close(ch)
+							return
+						}
+					}
+				}(lc2, gaveUp)
+				var fl2 *flight
+				died2 := false
+				select {
+				case f := <-rs.rec.C:
+					fl2 = &f
+				case <-gaveUp:
+					select {
+					case f := <-rs.rec.C:
+						fl2 = &f
+					default:
+					}
+					if fl2 == nil {
+						var known bool
+						if died2, known = childDied(c, lport); !known {
+							e.rec.Inconclusive("watchdog: cannot tell whether the client died or gave up", d)
+							return
+						}
+					}
+				case <-c.done:
+					select {
+					case f := <-rs.rec.C:
+						fl2 = &f
+					default:
+					}
+					died2 = fl2 == nil
+				case <-time.After(watchdog):
+					e.rec.Inconclusive("watchdog: client neither emitted anything nor gave up on its second local connection", d)
+					return
+				}
+				e.rec.Case("bb-reuse|"+form+"|"+in.key(), true)
+				e.rec.Stat("reuse_observations:bb-upstream", 1)
+				bo2 := *bo
+				bo2.Flight, bo2.Observed = fl2, nil
+				bo2.Note = fmt.Sprintf("local connection #%d through the same client process; at the first one the upstream was observed as %s", use, o.String())
+				if died2 {
+					e.judgeExit(d, form, c, &bo2, true)
+					return
+				}
+				if fl2 == nil {
+					e.rec.Seen("bb_outcomes", in.Pos+":"+form+":"+in.Class+":"+phaseReuse+"gave-up-at-connect")
+					if in.Want == "accept" {
+						bo2.Stderr = c.stderrText()
+						e.viol(sigT(in, phaseReuse+"never-connects"), d, &bo2)
+					}
+					return
+				}
+				o2 := fl2.asObs()
+				bo2.Observed = &o2
+				e.rec.Seen("observed_transports_bb", in.Pos+":"+phaseReuse+o2.String())
+				if !e.judgeTransportPhase(d, form, nat, a, o2, &startObs{Input: a, Natural: nat, Observed: &o2, FirstUse: &o, Use: use, Flight: fl2, Note: strings.Join(argv, " ")}, true, phaseReuse) {
+					return
+				}
+			}
 		}()
 		if !retry {
 			return
